@@ -2,8 +2,8 @@
 REG_DRAFT = dict(
     engine='E1-enum',
     technique='bounded-exhaustive enumeration of error sites (the C02 call grid plus user-call / syntax-form errors, in three contexts), each replayed as run + 3 x :resume on the real JSON-session handler',
-    text="Every case of the C02 grid (every public built-in/prelude function and method x argument vectors over the 20-value pool, arity n-1/n+1; every binary operator and +=/-= over pool x pool; the syntax forms x pool) plus user-function/closure/method arity and type errors, throw, assert, let hints, destructuring, match without a case, struct-literal errors, return-type errors, unknown variable/method/field. A first pass (`run` job) keeps the cases that raise a Garden exception or assertion. Each is then sent to a fresh JSON session (real handle_request_in_worker on one Env) at top level, inside a called function and inside a block inside a loop, followed by three `:resume` requests with nothing changed (prefixes cover 1 and 2 resumes). Oracle: every resume response is an error with the same message text and the same position as the first one. Exhaustive within the pool and deviation bound.",
-    note="Quick tier: all vectors at top level; the function and loop contexts run one representative per (callee, argument-kind vector, first error) class. `stack` text is not compared. The first response renders an assertion as the fixed text 'Assertion failed' (json_session::err_to_response) whereas :resume renders the full message: for assertions the message of resume 1 is the reference for resumes 2 and 3. Effectful built-ins run unsandboxed in a scratch directory; read_line is excluded.",
+    text="Every case of the C02 grid (every public built-in/prelude function and method x argument vectors over the 20-value pool, full product for <=2 positions and deviation-bounded beyond, arity n-1/n+1; every binary operator and +=/-= over pool x pool; the syntax forms x pool) plus user-function/closure/method arity and type errors, throw, assert, let hints, destructuring, match without a case, struct-literal errors, return-type errors, unknown variable/method/field and failing subexpressions with live siblings. A first pass (`run` job) keeps the cases that raise a Garden exception or assertion. Each is then sent to a fresh JSON session (real handle_request_in_worker on one Env) at top level, inside a called function and inside a block inside a loop, followed by three `:resume` requests with nothing changed (prefixes cover 1 and 2 resumes). Oracle: every resume response is an error with the same message text and the same position as the first one. Exhaustive within the pool and deviation bound.",
+    note="Quick tier: deviation bound 1 and, per context, one representative per (callee, argument-kind vector, first-error class); thorough: every vector, deviation bound 2. `stack` text is not compared. The first response renders every assertion as 'Assertion failed' (json_session::err_to_response) whereas :resume renders the assertion's own message (eval_to_response): for assertions the reference message is the one the `run` job reports. Effectful built-ins run unsandboxed in a scratch directory (not the shell's run); read_line is excluded. One violation signature per (callee, first-error class, how the resumed error differs); argument-kind vectors, contexts and the index of the first differing resume are in the detail.",
     design_ref='DESIGN.md §6 C07',
 )
 
@@ -166,9 +166,10 @@ def pos_key(p):
     return (p.get("path"), p.get("start_offset"), p.get("end_offset"), p.get("line_number"))
 
 
-def judge(result):
+def judge(result, assertion_msg=None):
     """Returns None if the session's first response is not an error, else (first, verdict, trace) where verdict is
-    None (property holds) or (resume_index, how)."""
+    None (property holds) or (resume_index, how). `assertion_msg`: what EvalError::AssertionFailed carries for this case
+    (from the `run` job); the first response renders every assertion as 'Assertion failed', :resume renders the message."""
     resp = result.get("responses", [])
     panic = result.get("panic")
     if not resp or (panic and panic["request"] == 0):
@@ -178,7 +179,8 @@ def judge(result):
         return None
     trace = [first]
     ref_msg, ref_pos = first[1], pos_key(first[2])
-    assertion = ref_msg == "Assertion failed"        # fixed text of err_to_response; eval_to_response renders the message itself
+    if ref_msg == "Assertion failed" and assertion_msg is not None:
+        ref_msg = assertion_msg
     verdict = None
     for i in (1, 2, 3):
         if panic and panic["request"] == i:
@@ -195,14 +197,10 @@ def judge(result):
             verdict = (i, "became-ok")
         elif r[0] != "err":
             verdict = (i, "no-evaluate-response")
-        else:
-            msg = r[1]
-            if assertion and i == 1 and msg.startswith("Assertion failed"):
-                ref_msg = msg
-            if msg != ref_msg:
-                verdict = (i, "message")
-            elif pos_key(r[2]) != ref_pos:
-                verdict = (i, "position")
+        elif r[1] != ref_msg:
+            verdict = (i, "message")
+        elif pos_key(r[2]) != ref_pos:
+            verdict = (i, "position")
     return (first, verdict, trace)
 
 
@@ -235,15 +233,15 @@ def run(ctx):
         k = r["outcome"]["kind"]
         ctx.outcome("pass1:" + k)
         if k in ("exception", "assertion"):
-            raising.append((c, norm_msg(r["outcome"].get("message", ""))))
+            raising.append((c, norm_msg(r["outcome"].get("message", "")), r["outcome"].get("message") if k == "assertion" else None))
     if not raising or len(raising) == len(allcases):
         raise Machinery("vacuous: pass 1 did not split the grid into raising and non-raising cases")
     ctx.bound("raising_cases", len(raising))
 
     # ---- pass 2: sessions. Quick: one representative (first in enumeration order) per (callee, kind vector, error class, context)
-    sess = []      # (case, context, src)
+    sess = []      # (case, context, src, assertion message)
     rep_seen = set()
-    for c, m in raising:
+    for c, m, amsg in raising:
         name, kinds, prefix, stmts, ctxs, eff = c
         for context in ctxs:
             if ctx.quick:
@@ -251,22 +249,22 @@ def run(ctx):
                 if rep in rep_seen:
                     continue
                 rep_seen.add(rep)
-            sess.append((c, context, prefix + wrap(stmts, context)))
+            sess.append((c, context, prefix + wrap(stmts, context), amsg))
     req = lambda s: json.dumps({"method": "run", "input": s})
-    jobs = [{"op": "session", "tick_limit": TICKS, "requests": [req(src), req(":resume"), req(":resume"), req(":resume")]} for _, _, src in sess]
+    jobs = [{"op": "session", "tick_limit": TICKS, "requests": [req(src), req(":resume"), req(":resume"), req(":resume")]} for _, _, src, _ in sess]
     res = ctx.pool.map(jobs, batch=32, timeout=30)
 
     held = 0
     by_context = {c: 0 for c in CONTEXTS}
     classes = {}       # (callee, first error class, how) -> {by_context, kinds, n, example}
-    for (c, context, src), r in zip(sess, res):
+    for (c, context, src, amsg), r in zip(sess, res):
         name, kinds = c[0], c[1]
         if "responses" not in r:
             what = "worker-crash" if "crash" in r else "does-not-end"
             ctx.violation(f"{name}: {what} during run + 3 x :resume", {"kinds": kinds, "context": context, "requests": [src] + [":resume"] * 3, "result": r})
             ctx.outcome(what)
             continue
-        j = judge(r)
+        j = judge(r, amsg)
         if j is None:
             ctx.outcome("session-first-response-not-an-error")
             continue
